@@ -42,7 +42,11 @@ Shapes == <<
   [n |-> 4, inc |-> << <<2>>, <<3, 4>>, <<>>, <<>> >>],
   \* a file reached along two paths is still one member of the tree (its figures count once)
   [n |-> 4, inc |-> << <<2, 3>>, <<4>>, <<4>>, <<>> >>],
-  [n |-> 3, inc |-> << <<3, 2>>, <<3>>, <<>> >>] >>
+  [n |-> 3, inc |-> << <<3, 2>>, <<3>>, <<>> >>],
+  \* a file that the root does not reach: alone, and including a file the root reaches too. A request made from it is
+  \* answered from ITS include tree, with or without a workspace root
+  [n |-> 3, inc |-> << <<2>>, <<>>, <<>> >>],
+  [n |-> 3, inc |-> << <<2>>, <<>>, <<2>> >>] >>
 
 RECURSIVE TreeOf(_, _)
 TreeOf(sh, i) == {i} \cup UNION { TreeOf(sh, sh.inc[i][k]) : k \in 1..Len(sh.inc[i]) }
@@ -177,7 +181,7 @@ WellFormedW(c) == \A i \in 1..Len(c.files) : \A k \in 1..Len(c.files[i].abs) : T
 Theorems ==
     stg = 1 =>
     LET c == WCase(cas[1]) IN
-    /\ c.files[1].tree = 1..Len(c.files)
+    /\ c.files[1].tree \subseteq 1..Len(c.files)
     /\ \A i \in 1..Len(c.files) : i \in c.files[i].tree
     /\ \A i \in 1..Len(c.files) : \A r \in c.tables[i].totals : \E s \in 0..12 : TRUE
 
